@@ -21,6 +21,21 @@ CHECKS = {
          "heuristics are outside the proved fragment and are listed findings (F04a/F04b) delimited by decidable predicates."),
    design_ref='DESIGN.md §5 C18',
    note=COMMON_NOTE + "Modelled rather than verified: Script.parse_bytesio's signature/key object construction and script-type detection."),
+ 'C11': dict(
+   technique='Lean 4 theorems (Base58 round trip + canonicity, Base58Check accepted=>canonical, Bech32 single-substitution detection) + exhaustive single-edit mutation correspondence',
+   text=("Proved in Lean for all inputs: Base58 decode(encode b) = b for every byte string and encode(decode s) = s for every accepted string "
+         "(one theorem, convert_convert, on positional digit lists with the leading-zero rule: no second spelling of any payload); Base58Check "
+         "decode(encode p) = p and accepted => the string is the canonical encoding with the correct checksum, for any checksum function; the "
+         "repaired change_base(.,58,256) equals the strict decoder; the Bech32 polymod is XOR-linear with an injective zero-input step on 30-bit "
+         "states, hence changing any single value of a checksummed sequence of any length changes the polymod (single-character substitutions are "
+         "always rejected for the same constant). BIP173/350 vectors are evaluated in the kernel. The executable model (with the generated "
+         "network table) is compared with addr_base58_to_pubkeyhash, deserialize_address, Address.parse, addr_bech32_to_pubkeyhash, Key(wif), "
+         "HDKey(xkey), HDKey.from_wif on EVERY single substitution/insertion/deletion/transposition of sampled valid strings of every class and "
+         "network, plus random damage, case changes, truncation and padding. Found and fixed through this check: F05, F06, F27, F28."),
+   design_ref='DESIGN.md §5 C11',
+   note=COMMON_NOTE + "Cryptographic residue (not a theorem): a corrupted Base58Check string is rejected unless the 4-byte SHA-256d checksums collide (2^-32). "
+        "convertbits round trip and HRP-character substitutions are covered by the correspondence run only. A refusal of a string the Spec would accept "
+        "(upper-case Bech32 in Address.parse, ambiguous litecoin WIF without network) is counted, not treated as a violation: C11 constrains acceptance."),
 }
 
 NOT_YET = {}
